@@ -1,12 +1,10 @@
-import json, os, glob, sys
-sys.path.insert(0, os.path.join(os.path.dirname(os.path.abspath(__file__)), "..", "..", "lib"))
-import verif
+import verif, verif_bpf
 
 SPEC = {
     "props": "Props/C19.v",
     "check_vo": ["Model/TcQosCheck.vo"],
     "driver": "c19",
-    "driver_args": ["-shard", "60"],
+    "driver_args": ["-shard", "20"],
     "component": "bpf/qos_ratelimit.c + qos.Manager",
     "clauses": {0: "upper bound: bytes admitted in any window <= burst + rate*window",
                 1: "no starvation: credit discarded while the subscriber is refused stays within burst + one max packet",
@@ -16,41 +14,6 @@ SPEC = {
 
 
 def run(ctx):
-    rc0, out = verif.sh([os.path.join(verif.VERIF, "bin", "setup-bpf")], env={"VERIF_REPO": ctx.repo}, timeout=600)
-    bpfdir = out.strip().splitlines()[-1] if out.strip() else ""
-    os.environ["VERIF_BPF_DIR"] = bpfdir
-    os.environ["VERIF_ROOT"] = verif.VERIF
+    bpfdir = verif_bpf.setup(ctx)
     rc = verif.standard_check(ctx, SPEC)
-    return verif_bpf_post(ctx, rc, bpfdir, "qos_ratelimit")
-
-
-def verif_bpf_post(ctx, rc, bpfdir, obj):
-    """kernel/native cross-check counters from the driver's stream metas -> evidence; a disagreement between
-    the kernel run and the native run of the same frame on the same map contents is a broken correspondence."""
-    agg = {"kernel_bpf": None, "verifier_ok": None, "kernel_test_runs": 0, "native_runs": 0,
-           "kernel_native_compared": 0, "kernel_native_disagree": 0, "native_faults": 0}
-    first = ""
-    for d in ("run", "replay"):
-        for mf in glob.glob(os.path.join(ctx.work, d, "*.meta.json")):
-            m = json.load(open(mf))
-            if "kernel_bpf" not in m:
-                continue
-            agg["kernel_bpf"] = m["kernel_bpf"]; agg["verifier_ok"] = m.get("verifier_ok")
-            for k in ("kernel_test_runs", "native_runs", "kernel_native_compared", "kernel_native_disagree", "native_faults"):
-                agg[k] = max(agg[k], m.get(k, 0))
-            first = first or m.get("kernel_native_disagree_first", "")
-    agg["bpf_object_dir"] = bpfdir
-    agg["bpf_build_ok"] = os.path.exists(os.path.join(bpfdir, obj + ".o")) and os.path.exists(os.path.join(bpfdir, obj + ".native"))
-    if agg["kernel_native_disagree"]:
-        rp = verif.write_replay(ctx, "%d-kernel-native" % ctx.seed, {"property": ctx.pid, "kind": "broken-obligation",
-             "no_longer_checks": ["corr:kernel test-run and native run of %s disagree" % obj], "first": first})
-        print("VIOLATION property=%s replay=%s no-failing-input-found" % (ctx.pid, rp))
-        rc = 1
-    ev = os.path.join(verif.VERIF, "evidence", ctx.pid + ".json")
-    if not ctx.replay and os.path.exists(ev):
-        e = json.load(open(ev))
-        e["coverage"].update(agg)
-        if rc and not e["violations"]:
-            e["violations"] = 1
-        json.dump(e, open(ev, "w"), indent=1)
-    return rc
+    return verif_bpf.post(ctx, rc, bpfdir, ["qos_ratelimit"])
